@@ -42,7 +42,7 @@ class _Collect:
         if rule == "R16b":
             self.good.add(inst.split("|")[0])
     def violation(self, rule, inst, where_, msg):
-        if rule in ("R16b", "R16e"):
+        if rule in ("R16b", "R16e", "R16d"):
             self.bad[inst.split("|")[0]] = msg
     def anchor_failure(self, *a): pass
 
